@@ -32,6 +32,9 @@ type Change struct {
 	Comments []string
 	MetaText string // when non-empty, the metavariable section verbatim (layout variants)
 	OrigFill *Fill  // abstracted patterns: the fillers that give back the fragment the pattern was abstracted from
+	// PlantFn, when set, generates target fragments made for this change (instances and near-misses the generic
+	// instantiation would not produce)
+	PlantFn func(g *G) string
 }
 
 var (
@@ -210,6 +213,8 @@ type Fill struct {
 	// another layout (doubled blanks, or a trailing comment): the same syntax, another source extent.
 	Relayout  bool
 	NoComment bool // Relayout without the trailing-comment variant
+	// Skew: filler used instead for the second and later occurrences of a metavariable (a near-miss, see SkewInstance)
+	Skew map[string]string
 }
 
 // delimited reports whether every occurrence of «name» in tmpl sits between list/bracket
@@ -282,9 +287,63 @@ func (c *Change) Instance(g *G) (string, *Fill) {
 	for _, sm := range dotsRe.FindAllStringSubmatch(minus, -1) {
 		f.Runs[sm[1]] = g.Run(sm[2], g.R.Intn(4))
 	}
+	if g.R.Intn(6) == 0 {
+		// code in the file may use names that are spelled like the metavariables of the patch: it is still ordinary code
+		c.hotFill(g, f)
+	}
 	f.Relayout = g.R.Intn(3) == 0
 	f.NoComment = g.NoRelayoutComment
 	return c.Substitute(minus, f), f
+}
+
+// hotFill renames one identifier inside the code an expression metavariable stands for to the name of a
+// metavariable of the change, and reports that metavariable, the new filler and the offset of the renamed identifier.
+func (c *Change) hotFill(g *G, f *Fill) (string, int, string) {
+	var cands []string
+	for _, v := range c.Meta {
+		if v.Kind == "expression" && v.Name[0] != 'T' && f.Meta[v.Name] != "" {
+			cands = append(cands, v.Name)
+		}
+	}
+	if len(cands) == 0 {
+		return "", 0, ""
+	}
+	name := cands[g.R.Intn(len(cands))]
+	hot := c.Meta[g.R.Intn(len(c.Meta))].Name
+	if hot == "_" || strings.ContainsAny(hot, "«»") {
+		return "", 0, ""
+	}
+	v := f.Meta[name]
+	var ids []tok
+	for _, t := range scan(v) {
+		if t.tok == token.IDENT && t.lit != "_" {
+			ids = append(ids, t)
+		}
+	}
+	if len(ids) == 0 {
+		return "", 0, ""
+	}
+	t := ids[g.R.Intn(len(ids))]
+	nv := v[:t.pos] + hot + v[t.pos+len(t.lit):]
+	if !PlantParses("expr", nv) {
+		return "", 0, ""
+	}
+	f.Meta[name] = nv
+	return name, t.pos, hot
+}
+
+// SkewInstance renders the minus side such that the occurrences of a repeated expression metavariable differ in
+// exactly one identifier, which at the first occurrence is spelled like a metavariable of the change: not an instance.
+func (c *Change) SkewInstance(g *G) (string, bool) {
+	minus := c.Side('-')
+	_, f := c.Instance(g)
+	name, pos, hot := c.hotFill(g, f)
+	if name == "" || strings.Count(minus, ph(name)) < 2 {
+		return "", false
+	}
+	v := f.Meta[name]
+	f.Skew = map[string]string{name: v[:pos] + "q" + g.fresh() + v[pos+len(hot):]}
+	return c.Substitute(minus, f), true
 }
 
 // Run generates a run of n elements for a list context.
@@ -360,6 +419,9 @@ func (c *Change) Substitute(tmpl string, f *Fill) string {
 		name := metaRe.FindStringSubmatch(m)[1]
 		if v, ok := f.Meta[name]; ok {
 			seen[name]++
+			if sk := f.Skew[name]; sk != "" && seen[name] > 1 {
+				return sk
+			}
 			if f.Relayout && seen[name] > 1 && kinds[name] == "expression" && !strings.Contains(v, "\n") && !strings.Contains(v, "`") && !strings.Contains(v, "\"") {
 				if strings.Contains(v, " ") {
 					return strings.ReplaceAll(v, " ", "  ")
